@@ -212,18 +212,12 @@ def play(ctx, hist, cm, gl, cla, arguments, model_state):
                 problems.append(("deep-copy-shares", f"deep copy shares {len(shared)} mutable object(s) with its source",
                                  {"site": "deep-copy-shares"}))
         elif op == "repop":
-            moves = []
-            orig = cm._move_random_points
-
-            def move(model, d, e):
-                out = orig(model, d, e)
-                moves.append([int(x) for x in out])
-                return out
-            with tu.patched(cm, "_move_random_points", move):
+            with tu.record_label_assignments() as assigned:
                 try:
                     out = cm.repopulate_empty_clusters(st)
                 except RuntimeError:
                     continue        # no donor: nothing was returned; skip the op (no state created)
+            moves = [lab for (_sid, lab) in assigned if lab is not None]
             ops.append(f"repop:{s}:{show_list(moves, lambda l: show_list(l), ';')}")
             if out is not st:
                 new_state = out
